@@ -25,6 +25,7 @@ def _sat(f):
 # ------------------------------------------------------------------ C05.1
 def c05_1(ctx):
     f = ctx.func(SOLVER, "Solver.sign")
+    unread_index = False
     for w in [w for w in writes_in(f) if not w.fresh and w.kind == "mutator"]:
         ctx.bad("sign-write:%s" % w.text, ctx.where(f, w.node), "Solver.sign writes `%s`; signing may change only the unlocking script and the witness of the input being signed" % w.text, sample={"write": w.text})
     w = sym.walk(ctx, f)
@@ -36,6 +37,11 @@ def c05_1(ctx):
                 continue
             ok = e.kind == "setattr" and e.attr == "script" and bool(e.loops) and tgt == "self.tx.txs_in[%s]" % e.loops[-1].target
             txt = e.text().split(" = ")[0]
+            if not ok and e.kind == "setattr" and e.attr == "script" and tgt.startswith("self.tx.txs_in[") and ("tx_in_idx_set" in tgt or "range(len(self.tx.txs_in))" in tgt):
+                # the index is taken from the requested set in a form other than `for idx in sorted(set)` (an index-driven loop)
+                ctx.undecided("sign-write:%s" % txt[:60], ctx.where(f, e.node), "Solver.sign writes `%s`: the input index is drawn from the requested set through an expression this rule does not read" % txt[:80])
+                unread_index = True
+                continue
             ctx.check(ok, "sign-write:%s" % txt, ctx.where(f, e.node),
                       "Solver.sign writes `%s`; signing may change only the unlocking script and the witness of the input being signed" % txt, what="write:%s" % txt, sample={"write": txt})
     idxs = [l.target for e in w.effects for l in e.loops]
@@ -43,6 +49,8 @@ def c05_1(ctx):
     if not sw:
         raise Undecided("Solver.sign does not call self.tx.set_witness")
     loopv = sw[0].loops[-1].target if sw[0].loops else None
+    if unread_index:
+        raise Undecided("Solver.sign draws the input index from the requested set in a form this rule does not read; the remaining clauses of this rule are not decided")
     ctx.check(all(e.loops and norm(e.raw.args[0]) == e.loops[-1].target for e in sw), "witness-write", ctx.where(f), "the witness is not written through set_witness(<loop index>, ...)")
     other_calls = sorted({norm(e.raw.func) for e in w.effects if e.kind == "call" and norm(e.raw.func).startswith("self.tx.") and norm(e.raw.func) not in ("self.tx.set_witness", "self.tx.check_unspents")})
     ctx.check(not other_calls, "no-other-tx-calls", ctx.where(f), "Solver.sign calls %s on the transaction" % other_calls)
